@@ -40,7 +40,13 @@ TvInit == [robs |-> <<>>,         \* reader -> observation at open
            lastAckLen |-> 0,
            opened |-> FALSE,
            returned |-> {},
-           cbwant |-> {}]         \* uids whose batch carries a persisted-callback
+           cbwant |-> {},         \* uids whose batch carries a persisted-callback
+           segdocs |-> <<>>,      \* segment id -> documents (segments are immutable)
+           prep |-> <<>>,         \* uid -> ids of the segments of the root read by prepareSegment
+           pgrab |-> <<>>,        \* entries of the root grabbed by the persister
+           mwake |-> <<>>,        \* entries of the root read by the merger at wake-up
+           mtask |-> <<>>,        \* new segment id -> [old, mem] of the merge in flight
+           ploaded |-> {}]        \* segment files written by the persister since its grab
 
 TraceInit == Init /\ l = 1 /\ viol = {} /\ tv = TvInit
 
@@ -53,7 +59,6 @@ DocSet(j) == Range(j)
 
 \* entries modulo handle numbers and persisted flag positions (for comparing
 \* the specification's transition functions with the logged roots)
-NoH(ents) == [i \in 1..Len(ents) |-> [ents[i] EXCEPT !.h = 0]]
 
 \* ---- clause bookkeeping ----------------------------------------------------
 \* V(S) adds the clauses of S that are new; each is printed once with its line
@@ -132,10 +137,45 @@ KeepAllBut(changed) == TRUE \* documentation only
 
 \* events that carry no state for the property clauses
 Ignored == {"ListEnd", "ReaderClosed", "CleanupBegin", "CleanupEnd", "PProgress", "MProgress", "CloseStart",
-            "Prepared", "MWake", "MergeTask", "PGrab", "Image", "Sched", "Lock"}
+            "Image", "Sched", "Lock"}
 TSkip ==
   /\ l <= N /\ Ev.ev \in Ignored /\ l' = l + 1
   /\ UNCHANGED <<vars, viol, tv>>
+
+\* ---- conformance of the model's transition functions (not a verdict: reported as divergences) ----
+NoH(ents) == [i \in 1..Len(ents) |-> [ents[i] EXCEPT !.h = 0]]
+WithDocs(sd, ents) == [x \in DOMAIN sd \cup EntIds(ents) |-> IF x \in EntIds(ents) THEN EntOf(ents, x).docs ELSE sd[x]]
+TPrepared ==
+  /\ Step("Prepared")
+  /\ tv' = [tv EXCEPT !.prep = Put(@, Ev.uid, Ev.rootSegs)]
+  /\ UNCHANGED <<vars, viol>>
+TPGrab ==
+  /\ Step("PGrab")
+  /\ tv' = [tv EXCEPT !.pgrab = IF Ev.epoch = 0 THEN @ ELSE root.ents, !.ploaded = IF Ev.epoch = 0 THEN @ ELSE {}]
+  /\ UNCHANGED <<vars, viol>>
+TMWake ==
+  /\ Step("MWake")
+  /\ tv' = [tv EXCEPT !.mwake = root.ents]
+  /\ UNCHANGED <<vars, viol>>
+TMergeTask ==
+  /\ Step("MergeTask")
+  /\ tv' = [tv EXCEPT !.mtask = Put(@, Ev.seg, [old |-> Ev.old, mem |-> Ev.mem])]
+  /\ UNCHANGED <<vars, viol>>
+\* what BlugeCore!AfterBatch computes for this introduction
+ExpectBatch ==
+  LET u == Ev.uid
+      rs == IF u \in DOMAIN tv.prep THEN tv.prep[u] ELSE <<>>
+      known == \A i \in DOMAIN rs : rs[i] \in DOMAIN tv.segdocs
+      obs == [i \in DOMAIN rs |-> [id |-> rs[i], d |-> Match(tv.segdocs[rs[i]], batchOf[u].del)]]
+  IN IF u \in DOMAIN batchOf /\ known THEN NoH(AfterBatch(root.ents, u, Ev.seg, obs)) ELSE NoH(EntsOf(Ev.ents))
+\* what BlugeCore!MergedRoot computes for this merge introduction
+ExpectMerge ==
+  LET mt == tv.mtask[Ev.seg]
+      snap == IF mt.mem THEN tv.pgrab ELSE tv.mwake
+      ok == Ev.seg \in DOMAIN tv.mtask /\ \A k \in DOMAIN tv.mtask[Ev.seg].old : tv.mtask[Ev.seg].old[k] \in EntIds(snap)
+      old == [k \in DOMAIN mt.old |-> EntOf(snap, mt.old[k])]
+      mm == [id |-> Ev.seg, old |-> old, docs |-> MergedDocs(old), h |-> 0]
+  IN IF Ev.seg \in DOMAIN tv.mtask /\ ok THEN MergedRoot(root.ents, mm) ELSE [ents |-> EntsOf(Ev.ents), skipped |-> Ev.skipped]
 
 RecK == {k \in 0..Len(applied) : Vis(root.ents) = AbsPrefix(k)}
 AckedPos == {PosOf(u) : u \in {x \in acked \cup cbAcked : IsApplied(x)}}
@@ -182,29 +222,44 @@ TIntroBatch ==
   /\ root' = [epoch |-> Ev.epoch, ents |-> EntsOf(Ev.ents)]
   /\ applied' = Append(applied, Ev.uid)
   /\ epochLen' = Put(epochLen, Ev.epoch, Len(applied) + 1)
-  /\ UNCHANGED <<fsnp, fseg, pol, inst, rd, life, acked, cbAcked, batchOf, retBefore, errd, cnt, tv>>
+  /\ tv' = [tv EXCEPT !.segdocs = WithDocs(@, EntsOf(Ev.ents))]
+  /\ UNCHANGED <<fsnp, fseg, pol, inst, rd, life, acked, cbAcked, batchOf, retBefore, errd, cnt>>
   /\ UNCHANGED Unused
   /\ Judge((IF Ev.uid \notin DOMAIN batchOf THEN {"C05_introduced_before_invoked"} ELSE {})
-           \cup (IF Ev.epoch <= root.epoch THEN {"C05_epoch_not_increasing"} ELSE {}))
+           \cup (IF Ev.epoch <= root.epoch THEN {"C05_epoch_not_increasing"} ELSE {})
+           \cup (IF ExpectBatch # NoH(EntsOf(Ev.ents)) THEN {"STRICT_batch_root_differs_from_model"} ELSE {}))
 
 \* introduceMerge / introducePersist: the visible documents must not change
-TIntroQuiet(name, clause) ==
-  /\ Step(name)
+TIntroMerge ==
+  /\ Step("IntroMerge")
   /\ root' = [epoch |-> Ev.epoch, ents |-> EntsOf(Ev.ents)]
   /\ epochLen' = Put(epochLen, Ev.epoch, Len(applied))
-  /\ UNCHANGED <<fsnp, fseg, pol, inst, rd, life, applied, acked, cbAcked, batchOf, retBefore, errd, cnt, tv>>
+  /\ tv' = [tv EXCEPT !.segdocs = WithDocs(@, EntsOf(Ev.ents))]
+  /\ UNCHANGED <<fsnp, fseg, pol, inst, rd, life, applied, acked, cbAcked, batchOf, retBefore, errd, cnt>>
   /\ UNCHANGED Unused
-  /\ Judge((IF Vis(EntsOf(Ev.ents)) # Vis(root.ents) THEN {clause} ELSE {})
-           \cup (IF Ev.epoch <= root.epoch THEN {"C05_epoch_not_increasing"} ELSE {}))
-TIntroMerge == TIntroQuiet("IntroMerge", "C06_merge_changed_content")
-TIntroPersist == TIntroQuiet("IntroPersist", "C06_swap_changed_content")
+  /\ Judge((IF Vis(EntsOf(Ev.ents)) # Vis(root.ents) THEN {"C06_merge_changed_content"} ELSE {})
+           \cup (IF Ev.epoch <= root.epoch THEN {"C05_epoch_not_increasing"} ELSE {})
+           \cup (IF NoH(ExpectMerge.ents) # NoH(EntsOf(Ev.ents)) THEN {"STRICT_merge_root_differs_from_model"} ELSE {})
+           \cup (IF ExpectMerge.skipped # Ev.skipped THEN {"STRICT_merge_skip_differs_from_model"} ELSE {}))
+TIntroPersist ==
+  /\ Step("IntroPersist")
+  /\ root' = [epoch |-> Ev.epoch, ents |-> EntsOf(Ev.ents)]
+  /\ epochLen' = Put(epochLen, Ev.epoch, Len(applied))
+  /\ tv' = [tv EXCEPT !.segdocs = WithDocs(@, EntsOf(Ev.ents))]
+  /\ UNCHANGED <<fsnp, fseg, pol, inst, rd, life, applied, acked, cbAcked, batchOf, retBefore, errd, cnt>>
+  /\ UNCHANGED Unused
+  /\ Judge((IF Vis(EntsOf(Ev.ents)) # Vis(root.ents) THEN {"C06_swap_changed_content"} ELSE {})
+           \cup (IF Ev.epoch <= root.epoch THEN {"C05_epoch_not_increasing"} ELSE {})
+           \cup (IF NoH(SwapRoot(root.ents, [x \in tv.ploaded |-> 0])) # NoH(EntsOf(Ev.ents))
+                 THEN {"STRICT_swap_root_differs_from_model"} ELSE {}))
 
 \* loadSnapshots at open: each loadable snapshot becomes the root
 TRootLoad ==
   /\ Step("RootLoad")
   /\ root' = [epoch |-> Ev.epoch, ents |-> EntsOf(Ev.ents)]
   /\ viol' = viol
-  /\ UNCHANGED <<fsnp, fseg, pol, inst, rd, life, cnt, tv>> /\ UNCHANGED Ghosts /\ UNCHANGED Unused
+  /\ tv' = [tv EXCEPT !.segdocs = WithDocs(@, EntsOf(Ev.ents))]
+  /\ UNCHANGED <<fsnp, fseg, pol, inst, rd, life, cnt>> /\ UNCHANGED Ghosts /\ UNCHANGED Unused
 
 TRootNil ==
   /\ Step("RootNil")
@@ -256,7 +311,8 @@ TPersistEnd ==
              THEN fsnp' = Restrict(fsnp, DOMAIN fsnp \ {Ev.id}) /\ fseg' = fseg
              ELSE fseg' = Restrict(fseg, DOMAIN fseg \ {Ev.id}) /\ fsnp' = fsnp
           /\ cnt' = cnt
-  /\ UNCHANGED <<root, pol, inst, rd, life, tv>> /\ UNCHANGED Ghosts /\ UNCHANGED Unused
+  /\ tv' = [tv EXCEPT !.ploaded = IF Ev.err = "" /\ Ev.kind = ".seg" /\ Ev.proc = "pers" THEN @ \cup {Ev.id} ELSE @]
+  /\ UNCHANGED <<root, pol, inst, rd, life>> /\ UNCHANGED Ghosts /\ UNCHANGED Unused
   /\ Judge(IF Ev.err = "" /\ Has(Ev, "parse") THEN {"C13_persisted_item_unreadable"} ELSE {})
 
 TLoadEnd ==
@@ -413,7 +469,7 @@ TCrash ==
   /\ UNCHANGED <<root, fsnp, fseg, pol, cnt>> /\ UNCHANGED Ghosts /\ UNCHANGED Unused
 
 TraceNext ==
-  \/ TReset0 \/ TReset \/ TSkip \/ TOpenReturn \/ TOpenCall \/ TInvoke \/ TIntroBatch \/ TIntroMerge \/ TIntroPersist
+  \/ TReset0 \/ TReset \/ TSkip \/ TPrepared \/ TPGrab \/ TMWake \/ TMergeTask \/ TOpenReturn \/ TOpenCall \/ TInvoke \/ TIntroBatch \/ TIntroMerge \/ TIntroPersist
   \/ TRootLoad \/ TRootNil \/ TReturn \/ TCallback \/ TPersistBegin \/ TPersistEnd \/ TLoadEnd \/ THandleClose
   \/ TCommit \/ TRemoveEnd \/ TReaderOpen \/ TRootObs \/ TReaderObs \/ TReaderClose \/ TAsyncError \/ TPResult
   \/ TCloseCall \/ TUnlock \/ TCloseReturn \/ TReopened \/ TStuck \/ TSecondOpen \/ TRecovered \/ TCrash
